@@ -244,7 +244,9 @@ func c01(c *Ctx) (*report.Result, error) {
 	if f := resolve(c, res, "O1.8", anchor{"proxy", "*proxyStreamReceiver", "recvReplicationMessages"}); f != nil {
 		checkSilentTargets(c, res, f, "O1.8")
 		res.RuleDoc["O1.13"] = "a routed message is attributed to the shard it was read from: every RoutedMessage built by a receiver carries SourceShard = that receiver's sourceShardID, the intra-proxy receiver hands it to its own target's channel, and the intra-proxy sender forwards an ack to its own source shard - the ring records that attribution and acknowledges exactly that shard"
-		checkShardIDRoles(c, res, "O1.13", func(kind, callee string) bool { return kind == "lit" || callee == "DeliverAckToShardOwner" || callee == "GetRemoteSendChan" })
+		checkShardIDRoles(c, res, "O1.13", func(kind, callee string) bool {
+			return kind == "lit" || callee == "DeliverAckToShardOwner" || callee == "GetRemoteSendChan"
+		})
 		res.RuleDoc["O1.14"] = "the keep-alive repeats the aggregate, not one target's report (same analysis as O3.4): lastSentAck is the request just sent with the aggregated minimum, and the keep-alive re-sends that object"
 		if r3, err := Registry["C03"](c); err == nil && r3 != nil {
 			if n := importObligations(res, r3, "O1.14", func(o report.Obligation) bool { return o.Rule == "O3.4" }); n < 2 {
@@ -857,7 +859,9 @@ func c03(c *Ctx) (*report.Result, error) {
 	checkRoutedAckTarget(c, res, "O3.14")
 	res.RuleDoc["O3.15"] = "a re-established source stream keeps its ack channel: the receiver evicts its predecessor BEFORE it registers its own ack channel (same analysis as O8.3) - the eviction force-removes the shard's ack channel, so in the other order the new receiver deregisters itself and no acknowledgement ever reaches it"
 	if r8, err := Registry["C08"](c); err == nil && r8 != nil {
-		if n := importObligations(res, r8, "O3.15", func(o report.Obligation) bool { return o.Rule == "O8.3" && strings.Contains(o.Construct, "proxyStreamReceiver") }); n < 1 {
+		if n := importObligations(res, r8, "O3.15", func(o report.Obligation) bool {
+			return o.Rule == "O8.3" && strings.Contains(o.Construct, "proxyStreamReceiver")
+		}); n < 1 {
 			res.Undec("O3.15", "eviction-order obligations of O8.3", "", "none imported")
 		}
 	}
